@@ -119,7 +119,7 @@ def correspondence(ctx):
         if r is None:
             continue
         got = H.parse_pairs(r)
-        ctx.oblige(got == exp, "correspondence", "model genQ/Proportion.sr_analyze = real SampleRatio.analyze (exact, stand-ins)",
+        ctx.oblige(H.same_numbers(got, exp), "correspondence", "model genQ/Proportion.sr_analyze = real SampleRatio.analyze (exact, stand-ins)",
                    f"model={got} real={exp}", case)
         ctx.sample(case, limit=3)
 
